@@ -160,6 +160,7 @@ class Raises:
         self.active: set = set()
         self.assumptions: List[str] = []
         self.sites_examined: Dict[str, dict] = {}       # construct key -> {verdict, ...}
+        self.source_hits: Dict[str, int] = {}          # configured result-sources that calls actually reached
         self.queue_cache: Dict[tuple, Val] = {}
         self.calls_resolved = 0
         self.calls_unresolved = 0
@@ -1674,6 +1675,7 @@ class FnAnalysis(Analysis):
         rv, esc = self.R.summary(target, self_cls or target.cls, args, st.ctl, self.chain)
         self.pending += esc
         if override is not None:
+            self.R.source_hits[target.qual] = self.R.source_hits.get(target.qual, 0) + 1
             return override       # the body was analysed for its raisers; its result is the configured taint source
         return rv
 
